@@ -1,3 +1,4 @@
+import DcmVerif.Props.C11_add
 import DcmVerif.Proofs.Grid
 import DcmVerif.Proofs.Guess
 import DcmVerif.Props.C11_complete
